@@ -109,6 +109,10 @@ Section Http.
   Variable mth : bytes.                     (* method named by the request path *)
   Variable schema_of : callinfo -> bytes.   (* output schema used by a continuation *)
   Variable refusal : frame.                 (* error batch of a token refusal *)
+  (* OTHER streams served by the same instances: what their /init and continuation
+     requests did to every instance's cache between this stream's request k-1
+     and its request k (their own cput / cget / LRU evictions) *)
+  Variable env : nat -> (nat -> cache) -> (nat -> cache).
 
   Definition limit_hit (n : nat) : bool := Nat.ltb 0 L && Nat.leb L n.
 
@@ -187,6 +191,7 @@ Section Http.
     match ins with
     | [] => []
     | r :: rest =>
+        let caches := env k caches in
         let inst := route k in
         let (rs, c') := exchange_req (caches inst) tok ct r in
         rs :: match rs_tok rs with
@@ -218,6 +223,7 @@ Section Http.
     match fuel, ticks with
     | O, _ | _, [] => []
     | S f, _ =>
+        let caches := env k caches in
         let inst := route k in
         let '(rs, c', rest) := prod_req (caches inst) tok ct ticks in
         rs :: match rs_tok rs with
@@ -275,6 +281,7 @@ Inductive coltype := CI64 | CI32 | CBadName.   (* input column: {x:int64} | {x:i
 Record input := {
   i_kind : mkind; i_reqid : bytes; i_loglevel : bytes;
   i_initlogs : list logmsg; i_initfail : option failure; i_header : option Z;
+  i_ocol : bytes;                                   (* output column a DYNAMIC method's init handler chooses at run time *)
   i_turns : list tscript;
   i_col : coltype; i_ins : list (list Z);          (* one entry per client input batch / tick *)
   i_L : nat; i_capevery : bool; i_cmax : nat; i_route : list nat;
@@ -288,10 +295,13 @@ Definition has_header (k : mkind) : bool := match k with MProd | MExch => false 
 Definition is_dynamic (k : mkind) : bool := match k with MDynProd | MDynExch => true | _ => false end.
 Definition method_name (k : mkind) : bytes :=
   match k with MProd => str "prod" | MProdH => str "prod_h" | MExch => str "exch" | MExchH => str "exch_h" | _ => str "dyn" end.
-Definition out_schema : bytes := str "v:int64".
+Definition reg_out_schema : bytes := str "v:int64".
+(* output schema of the call: registered {v:int64}, or the one the dynamic init handler returned *)
+Definition out_schema_of (k : mkind) (ocol : bytes) : bytes :=
+  match k with MDynProd | MDynExch => ocol ++ str ":int64" | _ => reg_out_schema end.
 Definition hdr_schema : bytes := str "h:int64".
 (* schema of the error stream of a failed init on the pipe: the REGISTERED output schema *)
-Definition reg_schema (k : mkind) : bytes := if is_dynamic k then [] else out_schema.
+Definition reg_schema (k : mkind) : bytes := if is_dynamic k then [] else reg_out_schema.
 
 (* log.go logLevelPriority / context.go ClientLog (init logs only: the per-turn
    OutputCollector.ClientLog does not filter) *)
@@ -355,6 +365,7 @@ Definition cast_rt (info : callinfo) (m : coltype * list Z) : Z + frame :=
   match ci_inschema info with [] => inl (deliver m) | _ => cast_pipe m end.
 Definition in_schema : bytes := str "x:int64".
 
+Definition out_schema (i : input) : bytes := out_schema_of (i_kind i) (i_ocol i).
 Definition hdr (i : input) : option Z := if has_header (i_kind i) then i_header i else None.
 Definition adm (i : input) : list logmsg := filter (admitted (i_loglevel i)) (i_initlogs i).
 Definition hdr_streams (i : input) : list stream :=
@@ -379,7 +390,7 @@ Definition pipe_obs (i : input) : list stream :=
   match i_initfail i with
   | Some f => [ {| st_schema := reg_schema (i_kind i); st_frames := [init_exc (i_reqid i) f] |} ]
   | None =>
-      hdr_streams i ++ [ {| st_schema := out_schema; st_frames := pre (i_reqid i) i ++ map (stamp (i_reqid i)) (loop i) |} ]
+      hdr_streams i ++ [ {| st_schema := out_schema i; st_frames := pre (i_reqid i) i ++ map (stamp (i_reqid i)) (loop i) |} ]
   end.
 
 (* trivial codecs for the executable model *)
@@ -389,8 +400,8 @@ Definition refusal0 : frame := exc exc_runtime_error [].
 
 (* [legacy] = the code before the repair: the call token did not carry the runtime
    input schema, so a dynamic exchange stream was never cast over HTTP *)
-Definition call_info (legacy : bool) (k : mkind) : callinfo :=
-  {| ci_id := cid0; ci_method := method_name k; ci_schema := out_schema;
+Definition call_info (legacy : bool) (k : mkind) (ocol : bytes) : callinfo :=
+  {| ci_id := cid0; ci_method := method_name k; ci_schema := out_schema_of k ocol;
      ci_inschema := if negb legacy && is_dynamic k && negb (is_producer k) then in_schema else [] |}.
 
 Definition http_resps_gen (legacy : bool) (i : input) : list (resp (bytes * sstate)) :=
@@ -399,11 +410,13 @@ Definition http_resps_gen (legacy : bool) (i : input) : list (resp (bytes * ssta
   then http_prod (sstep true) (fun s => s) (@Some sstate) (fun x => x) (@Some _) (fun x => x) (@Some callinfo)
                  (i_L i) (fun _ => i_capevery i) (i_cmax i)
                  (route_of (i_route i)) (method_name k) ci_schema refusal0
-                 (call_info legacy k) out_schema (fun _ => []) (i_turns i) (pre [] i) (ticks i)
+                 (fun _ c => c)
+                 (call_info legacy k (i_ocol i)) (out_schema i) (fun _ => []) (i_turns i) (pre [] i) (ticks i)
   else http_exch (sstep false) (cast_reg k) cast_rt (fun s => s) (@Some sstate) (fun x => x) (@Some _) (fun x => x) (@Some callinfo)
                  (i_cmax i)
                  (route_of (i_route i)) (method_name k) ci_schema refusal0
-                 (call_info legacy k) out_schema (fun _ => []) (i_turns i) (pre [] i) (raws i).
+                 (fun _ c => c)
+                 (call_info legacy k (i_ocol i)) (out_schema i) (fun _ => []) (i_turns i) (pre [] i) (raws i).
 Definition http_resps := http_resps_gen false.
 
 Definition render {T} (r : resp T) : hresp :=
